@@ -116,6 +116,11 @@ class H11Protocol:
 
     async def handle(self, event: Event) -> None:
         if isinstance(event, RawData):
+            if self.closed:
+                # Read after the server closed the connection (e.g. at
+                # shutdown), a request in it cannot be responded to and
+                # must therefore not be started.
+                return
             self.connection.receive_data(event.data)
             await self._handle_events()
         elif isinstance(event, Closed):
@@ -186,6 +191,11 @@ class H11Protocol:
                         # The preface is not a request, there is nothing that
                         # would mark the connection as idle again after it.
                         await self.send(Updated(idle=False))
+                        if self.closed:
+                            # Closed (by the idle timeout, e.g. at shutdown)
+                            # just as the request arrived, it cannot be
+                            # responded to and is therefore not started.
+                            break
                     await self._check_protocol(event)
                     await self._create_stream(event)
                 elif event is h11.PAUSED:
